@@ -31,7 +31,8 @@ impl<'a> ParamParser<'a> {
     /// the parameters later cannot fail: the NULL bitmap and (if present) the type table must be
     /// complete, every bound type must be known, a type must be bound for every parameter, and
     /// every value that is neither NULL nor supplied as long data must be complete.
-    pub(crate) fn validate(&self) -> std::io::Result<()> {
+    /// Types sent with this execution are recorded for the statement here.
+    pub(crate) fn validate(&mut self) -> std::io::Result<()> {
         use std::io;
         let bad = |what: &str| {
             io::Error::new(
@@ -60,6 +61,9 @@ impl<'a> ParamParser<'a> {
                 ));
             }
             input = rest;
+            // the types are bound to the statement from now on, whether or not the shim goes on
+            // to look at the parameters of this execution
+            self.bound_types.clone_from(&new_types);
         } else {
             if !rest.is_empty() {
                 input = &rest[1..];
